@@ -66,7 +66,7 @@ FUNCTIONS = list(_s.FUNCTIONS) + [
         ensures vs_exc == 0 || vs_exc == VS_EXC_RUNTIME_ERROR"""},
     {'q': 'Pistache::Http::Mime::MediaType::parseRaw', 'hoist_all': True, 'contract': """
         requires FRESH(this, sizeof(*this)) && len <= MAXLEN && FRESH(str, len) && vs_exc == 0 && (this->q_.has ==> this->q_.val <= 100)
-        assigns *this, vs_exc, vs_exc_code, g_hit_end, g_w, g_app_src
+        assigns *this, vs_exc, vs_exc_code, g_hit_end, g_j, g_w, g_app_src
         # C18: every byte read lies in [str, str+len): the text is an object of exactly len bytes, so any other read fails a bounds check.
         # the raw text is remembered as given (toString() of a parsed media type returns it)
         ensures this->raw_.size == len
@@ -75,7 +75,7 @@ FUNCTIONS = list(_s.FUNCTIONS) + [
         ensures vs_exc == 0 ==> (this->top_ != Pistache_Http_Mime_Type_None && this->sub_ != Pistache_Http_Mime_Subtype_None)
         ensures (vs_exc == 0 && this->q_.has) ==> this->q_.val <= 100""",
      'loops': ["""
-        assigns buf.vs_base_StreamBuf.pos, vs_exc, vs_exc_code, g_hit_end, g_w, g_app_src, this->q_, this->params, $HOISTED
+        assigns buf.vs_base_StreamBuf.pos, vs_exc, vs_exc_code, g_hit_end, g_j, g_w, g_app_src, this->q_, this->params, $HOISTED
         invariant buf.vs_base_StreamBuf.pos <= buf.vs_base_StreamBuf.len && vs_exc == 0 && (this->q_.has ==> this->q_.val <= 100)
         decreases buf.vs_base_StreamBuf.len - buf.vs_base_StreamBuf.pos"""]},
     {'q': 'Pistache::Http::Mime::MediaType::parseRaw::raise', 'lambda': True},
@@ -85,7 +85,7 @@ PROOFS = [
     {'name': 'Q_ctor', 'enforce': 'Pistache_Http_Mime_Q_ctor', 'props': ['C18']},
     {'name': 'Q_fromFloat', 'enforce': 'Pistache_Http_Mime_Q_fromFloat', 'props': ['C18', 'C03'], 'flags': ['--conversion-check', '--float-overflow-check', '--nan-check'],
      'replay': {'driver': 'qfloat', 'argv': ['$f'], 'link': False}},
-    {'name': 'MediaType_parseRaw', 'enforce': 'Pistache_Http_Mime_MediaType_parseRaw', 'loops': 'contracts', 'props': ['C18', 'C03'], 'cost': 60, 'timeout': 1200, 'object_bits': 11, 'mem_gb': 24, 'defs': ['-DVS_LIGHT'],
+    {'name': 'MediaType_parseRaw', 'enforce': 'Pistache_Http_Mime_MediaType_parseRaw', 'loops': 'contracts', 'props': ['C18', 'C03'], 'cost': 60, 'timeout': 3600, 'object_bits': 11, 'mem_gb': 24, 'defs': ['-DVS_LIGHT'],
      'harness': 'void h_MediaType_parseRaw(void) { struct Pistache_Http_Mime_MediaType *a0; char *a1; size_t a2; Pistache_Http_Mime_MediaType_parseRaw(a0, a1, a2); }\n',
      'replace': [ADV, 'Pistache_match_string', 'Pistache_match_literal', 'Pistache_match_raw', 'Pistache_match_until_il', 'Pistache_match_until_c', 'Pistache_match_double', 'Pistache_Http_Mime_Q_fromFloat']},
 ]
